@@ -23,7 +23,7 @@ def store_cases(draw):
     frames = []
     for _ in range(nframes):
         en = draw(st.sampled_from(["both", "both", "none", "vpot-only"]))
-        frames.append({"file": draw(st.integers(0, nfiles - 1)), "idx": draw(st.integers(0, 30)), "rev": draw(st.booleans()),
+        frames.append({"file": draw(st.integers(0, nfiles - 1)), "idx": draw(st.one_of(st.integers(0, 30), st.integers(0, 30), st.integers(0, 30), st.none())), "rev": draw(st.booleans()),  # None: a single-configuration file
                        "order": [draw(val) for _ in range(ncomp)],
                        "vpot": draw(val) if en in ("both", "vpot-only") else None, "ekin": draw(val) if en == "both" else None})
     return {"frames": frames, "nfiles": nfiles, "number": draw(st.integers(0, 500)), "step": draw(st.integers(0, 9999)),
@@ -87,7 +87,7 @@ def body_store(rec, c):
         acc = os.path.join(pdir, "accepted")
         for i, (pp, fr) in enumerate(zip(back.phasepoints, c["frames"])):
             want_file = os.path.join(acc, os.path.basename(srcs[fr["file"]]))
-            rec.check(os.path.abspath(pp.config[0]) == os.path.abspath(want_file) and int(pp.config[1]) == fr["idx"], "store:frame-reference", f"frame {i}: {pp.config} want ({want_file}, {fr['idx']})")
+            rec.check(os.path.abspath(pp.config[0]) == os.path.abspath(want_file) and int(pp.config[1]) == (fr["idx"] or 0), "store:frame-reference", f"frame {i}: {pp.config} want ({want_file}, {fr['idx'] or 0})")
             rec.check(bool(pp.vel_rev) == fr["rev"], "store:velocity-direction", f"frame {i}: {pp.vel_rev} vs {fr['rev']}")
             got = [float(x) for x in pp.order]
             rec.check(len(got) == len(fr["order"]) and all(abs(g - w) <= 5.0000001e-7 for g, w in zip(got, fr["order"])), "store:order-parameter", f"frame {i}: {got} vs {fr['order']}")
